@@ -5,7 +5,7 @@ CONSTANTS
   StepBits = 16
   Alphabet = {0, 1, 16, 128, 255}
   MaxLen = 2
-  MaxKeys = 4
+  MaxKeys = 3
 INIT Init
 NEXT Next
 INVARIANTS RoundTrip CutRefused FilterSize
